@@ -310,6 +310,17 @@ func (s *Sim) checkEnd(b *blockObs, r abci.ResponseEndBlock, before, after *Dump
 			if !vb.Waiting[addr] && !forcedNow {
 				s.violate("C24", "unstake-without-request", "node", fmt.Sprintf("height %d: node %s moved to unstaking without being in the waiting set", h, addr))
 			}
+			// the waiting entry must belong to this record of the node: an entry older than the record
+			// is what an earlier stake of the same key left behind (own record of both ages)
+			if ws, ok := s.waitingSince[addr]; ok && vb.Waiting[addr] && !forcedNow {
+				ns, known := s.nodeSince[addr]
+				if !known {
+					ns = h // the record was created in this very block
+				}
+				if ws < ns {
+					s.violate("C24", "unstake-without-request", "waiting-entry-older-than-the-node-record", fmt.Sprintf("height %d: node %s (record since height %d) was moved to unstaking by a waiting entry that exists since height %d; this record never asked to unstake", h, addr, ns, ws))
+				}
+			}
 			if nv.UnstakingCompletionTime.Before(now) {
 				s.violate("C24", "completion-time-in-the-past", "node", fmt.Sprintf("height %d: node %s completion time %s, block time %s", h, addr, nv.UnstakingCompletionTime, now))
 			}
